@@ -252,4 +252,16 @@ theorem accounts_monotone (cfg : Config) (st : State) (files : List FileView) (h
   rw [notifyNewFiles_eq]
   exact ⟨i1, i2⟩
 
+/-! ### non-vacuity: concrete inputs on which the hypotheses hold (evaluated by the kernel) -/
+open FFS.Model.FsWallet
+def exCfg : Config := ⟨"/k", ".key.json", false, false, ".pwd", "", true, "", "auto"⟩
+def exAddr : Addr := List.replicate 19 0 ++ [1]
+def exFile : FileView := { name := "0000000000000000000000000000000000000001.key.json", isDir := false, regexCapture := none }
+/-- non-vacuity of `sign_only_owner`: after discovering one matching file, a request whose file holds a key deriving
+    the address succeeds (and one whose file holds another key does not) -/
+example : ((getWalletFile (fun k => k) ([Op.notify [exFile]].foldl (step exCfg (fun k => k)) State.init) exAddr
+    (fun _ => .ok exAddr)).2 == .ok exAddr) = true := by decide +kernel
+example : ((getWalletFile (fun k => k) ([Op.notify [exFile]].foldl (step exCfg (fun k => k)) State.init) exAddr
+    (fun _ => .ok [7])).2 == .err) = true := by decide +kernel
+
 end FFS.Props.C08
